@@ -1,4 +1,8 @@
-(* C14 driver: reads "T1 bal n m u.. v.. s.. d..", prints "D d.. | S i j a;... | A a.." in the format of harness/transp1d.cpp *)
+(* C14 driver.
+   "T1 bal n m u.. v.. s.. d.."  -> "D d.. | S i j a;... | A a.. | C c"  in the format of harness/transp1d.cpp; c = 1 when the model's own
+                                    plan passes the proved certificate checker (solve_checked), 0 when not, - when n*m > 600 (not evaluated)
+   "T1U ..."                     -> the same with the model of the UNCHANGED convertAssignmentBack (finding F11)
+   "CP n m u.. v.. s.. d.. k (i j a)*k" -> "1 cost" / "0 cost": proved checker check_plan on an externally supplied plan (the C++ plan) *)
 open Model_transp1d
 let rec pos_of_int n = if n = 1 then XH else if n land 1 = 0 then XO (pos_of_int (n lsr 1)) else XI (pos_of_int (n lsr 1))
 let z_of_int n = if n = 0 then Z0 else if n > 0 then Zpos (pos_of_int n) else Zneg (pos_of_int (-n))
@@ -38,7 +42,17 @@ let do_t1 unfixed =
     let sa = (match (if unfixed then assign_unfixed pb else assign pb) with
       | Err e -> err_msg e
       | Ok a -> "A" ^ (if a = [] then "" else " ") ^ String.concat " " (List.map (fun x -> string_of_int (int_of_nat x)) a)) in
-    Printf.printf "%s | %s | %s\n" sd ss sa
+    let sc = if n * m > 600 then "-" else (match solve pb with Err _ -> "-" | Ok _ -> (match solve_checked pb with Some _ -> "1" | None -> "0")) in
+    Printf.printf "%s | %s | %s | C %s\n" sd ss sa sc
+
+let rec nat_of_int n = if n <= 0 then O else S (nat_of_int (n-1))
+let do_cp () =
+  let n = nexti () in let m = nexti () in
+  let u = rep n z in let v = rep m z in let s = rep n z in let d = rep m z in
+  let pb = { pb_u = u; pb_v = v; pb_s = s; pb_d = d } in
+  let k = nexti () in
+  let sol = rep k (fun () -> let i = nat_of_int (nexti ()) in let j = nat_of_int (nexti ()) in let a = z () in ((i, j), a)) in
+  Printf.printf "%d %d\n" (if check_plan pb sol then 1 else 0) (int_of_z (plan_cost pb sol))
 
 let () =
   try while true do
@@ -52,6 +66,7 @@ let () =
          (match tag with
           | "T1" -> do_t1 false
           | "T1U" -> do_t1 true
+          | "CP" -> do_cp ()
           | _ -> print_endline "?TAG")
         with Short -> print_endline "?SHORT"))
   done with End_of_file -> ()
